@@ -37,6 +37,7 @@ pub const TS_SNIPPETS: &[&str] = &[
   "// ast-grep-ignore\nconsole.log(\"suppressed\");",
   "console.log(1); // ast-grep-ignore: no-console",
   "const arr = [1, 2, 3].map((n) => n + 1);",
+  "const tight = [1,2,3];",
 ];
 
 pub const JS_SNIPPETS: &[&str] = &[
@@ -57,6 +58,7 @@ pub const JS_SNIPPETS: &[&str] = &[
   "let z = 3;",
   "eval('1 + 1');",
   "const arr = [1, 2, 3].map((n) => n + 1);",
+  "const tight = [1,2,3];",
   "alert(123);",
 ];
 
